@@ -40,31 +40,31 @@ type Scenario struct {
 
 // RunResult is everything recorded about one run.
 type RunResult struct {
-	Viol      *Violation
-	Infra     string // non-empty: infrastructure trouble (never a verdict)
-	Steps     int
-	VT        time.Duration
-	Hash      uint64
-	Tape      []uint32
-	Events    []string
-	Tasks     []simrt.TaskInfo
-	Faults    map[string]int
-	Probes    map[string]int
-	Cover     map[string]int
-	States    map[uint64]struct{}
-	SelMulti  int
-	SelNonSrc int
-	MultiTask int
-	FairDef   int
-	Decisions int
-	Preempts  int
-	PoolEvict int
-	PoolReuse int
-	Quiescent bool
-	StepCap   bool
-	Leaked    bool // the bubble ended with blocked goroutines (after clean-up)
+	Viol                *Violation
+	Infra               string // non-empty: infrastructure trouble (never a verdict)
+	Steps               int
+	VT                  time.Duration
+	Hash                uint64
+	Tape                []uint32
+	Events              []string
+	Tasks               []simrt.TaskInfo
+	Faults              map[string]int
+	Probes              map[string]int
+	Cover               map[string]int
+	States              map[uint64]struct{}
+	SelMulti            int
+	SelNonSrc           int
+	MultiTask           int
+	FairDef             int
+	Decisions           int
+	Preempts            int
+	PoolEvict           int
+	PoolReuse           int
+	Quiescent           bool
+	StepCap             bool
+	Leaked              bool // the bubble ended with blocked goroutines (after clean-up)
 	StepsAfterLastFault int
-	NonTrivial bool
+	NonTrivial          bool
 }
 
 const (
